@@ -28,6 +28,8 @@ pub fn report(k: &str, rows: &[String]) { println!("OBS {{\"k\": {:?}, \"rows\":
 def key_of(c):
     fa = sorted(c["formsAttr"])
     ftag = ("{" + ",".join(fa) + "}") if fa else ""
+    if c.get("place") == "variant1":
+        ftag += "@v1"
     return ("G" if c["generic"] else "") + ftag + "enum[" + ",".join(
         f"{v['k']}({''.join(t.lower() if fi else t for t, fi in zip(v['tys'], v['fign']))}){'!' if v['ign'] else ''}"
         for v in c["vs"]) + "]"
@@ -54,7 +56,7 @@ def build(c, key):
         # underscores are word boundaries, never part of a word: leading, doubled and trailing ones vanish
         NAMES = [("_Phantom", "phantom"), ("Left__Right", "left_right"), ("Trailing_", "trailing"), ("Q_", "q")]
     elif pick == 2:
-        NAMES = [("Plain_Name", "plain_name"), ("lower", "lower"), ("X", "x"), ("Y2", "y2")]
+        NAMES = [("Plain_Name", "plain_name"), ("lower", "lower"), ("X", "x"), ("Yz", "yz")]
     vs = c["vs"]
     # (a named variant that is IGNORED takes no accessor: Unwrap / TryUnwrap are derivable next to it, and its values still
     # reach the other variants' accessors)
@@ -105,6 +107,16 @@ def build(c, key):
     order = [f for f in ("owned", "ref", "ref_mut") if f in c["formsAttr"]]
     forms = "".join(f"#[{a}({', '.join(order)})]\n" for a, d in [("unwrap", "Unwrap"), ("try_unwrap", "TryUnwrap"),
                                                                    ("try_into", "TryInto")] if d in derives) if order else ""
+    # per variant: which accessor forms the contract says exist (Variants.tla DocFormsAt); TryInto's forms are the enum-level ones
+    FA = [set(x) for x in c["formsAt"]]
+    F_into = F
+    if c.get("place") == "variant1":
+        # the Unwrap / TryUnwrap form attributes on the FIRST non-ignored variant only, nothing on the enum; TryInto unattributed
+        first = next(i for i, v in enumerate(vs) if not v["ign"])
+        vattr = "".join(f"#[{a}({', '.join(order)})] " for a, d in [("unwrap", "Unwrap"), ("try_unwrap", "TryUnwrap")] if d in derives)
+        decls[first] = vattr + decls[first]
+        forms = ""
+        F_into = {"owned"}
     head = ("#[derive(" + ", ".join("derive_more::" + d for d in derives) + ", Clone, Debug, PartialEq)]\n" + forms +
             f"pub enum E{g} {{ {', '.join(decls)} }}")
     body = [f"let vals: Vec<E{gi}> = vec![{', '.join(vals)}];", "let mut rows: Vec<String> = vec![];"]
@@ -207,7 +219,7 @@ def build(c, key):
             if not ok:
                 body.append(f'rows.push(format!("text_try_into {a} {tk} {{}}", match <{tt}>::try_from(vals[{a}].clone()) {{ Ok(_) => String::from("ok"), Err(e) => e.to_string() }}));')
                 exp.append(f"text_try_into {a} {tk} {into_text(T)}")
-                if n >= 1 and "ref" in F:
+                if n >= 1 and "ref" in F_into:
                     body.append(f'rows.push(format!("text_try_into_ref {a} {tk} {{}}", match <{rt}>::try_from(&vals[{a}]) {{ Ok(_) => String::from("ok"), Err(e) => e.to_string() }}));')
                     exp.append(f"text_try_into_ref {a} {tk} {into_text(T)}")
             if n >= 1:
@@ -227,10 +239,17 @@ def build(c, key):
                "try_into_ref": "ref", "text_unwrap": "owned", "text_try_unwrap": "owned", "text_unwrap_ref": "ref",
                "text_try_unwrap_ref": "ref", "text_unwrap_mut": "ref_mut", "text_try_unwrap_mut": "ref_mut", "text_try_into": "owned",
                "text_try_into_ref": "ref", "unwrap_mut": "ref_mut", "try_unwrap_mut": "ref_mut", "try_into_mut": "ref_mut"}
-    keep = lambda name: FORM_OF.get(name) is None or FORM_OF[name] in F
+    def keep(row):
+        w = row.split(" ")
+        name = w[0]
+        if FORM_OF.get(name) is None:
+            return True
+        if "try_into" in name:
+            return FORM_OF[name] in F_into
+        return FORM_OF[name] in FA[int(w[2])]          # `<accessor> <value's variant> <accessor's variant> ...`
     pre = 'rows.push(format!("'
-    body = [b for b in body if not b.startswith(pre) or keep(b[len(pre):].split(" ")[0])]
-    exp = [e for e in exp if keep(e.split(" ")[0])]
+    body = [b for b in body if not b.startswith(pre) or keep(b[len(pre):])]
+    exp = [e for e in exp if keep(e)]
     body.append(f"report({json.dumps(key)}, &rows);")
     mod = "use super::*;\nuse core::convert::TryFrom;\n" + head + "\npub fn run() {\n    " + "\n    ".join(body) + "\n}"
     return mod, exp
